@@ -15,6 +15,10 @@ CLAIMED = {
    text="Every instruction that can panic (index, slice bounds, unchecked type assertion, nil map store, nil dereference, nil function call, explicit panic) in EVAL, eval_ast, do, macroexpand, quasiquote, the scope chain, Apply, the error wrapper, the six recover-protected binder closures and the unwrapped eval builtins is proved unreachable for every AST, scope and heap satisfying the stated data invariant; callee preconditions and the function-value invariant are discharged at every call and construction site.",
    note="Assumes A-ENV (scopes are *env.Env built by the constructors; MalFunc/Func values satisfy the data invariant, which is itself proved at every construction site under contract), stub contracts, the Stepper callback returning one of its four commands; stack exhaustion and non-termination excluded by the statement; builtins are covered through the Func.Fn field contract (wrapper closures recover every panic), not one by one.",
    tech=TECH + "; obligation kinds nopanic/*, pre@callee, typeinv, post"),
+ "C05": dict(level="proof", ref="DESIGN.md §4 C05",
+   text="tokenize's driver loop, the token cursor, every recursive-descent reader function, Read_str, READ, READWithPreamble and the printer are proved never to panic for every token array (any Value/Type satisfying the assumed scanner contract), with or without placeholder table and environment; termination is proved by decreases obligations: lexicographic (remaining tokens, rank) on the mutual recursion read_form/read_list/..., remaining tokens on read_list's loop, len(str) on the preamble loop.",
+   note="A-SCAN (token contract of github.com/jig/scanner, incl. its termination) is assumed, as are the regexp facts stated as at-assumptions in the contract files and the marshaler.HashMap interface contract; byte-level claims rest on A-SCAN; printer termination on acyclic data is by structural recursion (not mechanised).",
+   tech=TECH + "; obligation kinds nopanic/*, decreases, pre@callee, post, inv-*"),
 }
 
 NA_REASON_WIP = ("check under construction (the contract-based VC engine exists; this property's contracts are not wired yet): "
